@@ -33,9 +33,9 @@ TOL = 1e-9
 def _case(draw):
     fact = draw(st.sampled_from(gen.FACTS))
     op = draw(st.sampled_from(OPS))
-    n_in = draw(st.integers(1, 5))
+    n_in = draw(st.one_of(st.integers(1, 5), st.integers(1, 9)))  # up to 9 coefficients (the property's bound), small ones more often
     n_out = draw(st.one_of(st.just(1), st.just(n_in), st.integers(1, n_in)))
-    d = draw(st.integers(1, 3))
+    d = draw(st.one_of(st.integers(1, 3), st.integers(1, 5)))
     if op in ("merge",):
         n_mid = draw(st.integers(1, 5))
     else:
